@@ -6,6 +6,7 @@ require (
 	github.com/anishathalye/porcupine v1.3.0
 	github.com/yorkie-team/yorkie v0.0.0
 	go.uber.org/zap v1.27.1
+	google.golang.org/protobuf v1.36.10
 )
 
 require (
@@ -55,7 +56,6 @@ require (
 	golang.org/x/sys v0.38.0 // indirect
 	golang.org/x/text v0.31.0 // indirect
 	google.golang.org/genproto/googleapis/rpc v0.0.0-20251202230838-ff82c1b0f217 // indirect
-	google.golang.org/protobuf v1.36.10 // indirect
 )
 
 replace github.com/yorkie-team/yorkie => /repo
